@@ -29,7 +29,9 @@ const EVENTS: &[&str] = &[
     "R 2 small", "R 2 equal", "R 2 far", "R 3 equal", "R 3 far", "R 2 far-del", "R 2 far-hash",
     "L HSET h f v g w i x", "L HDEL h g",
 ];
-const POST: &[&str] = &["SET k new", "APPEND k z", "HSET h f new", "INCR n", "DEL k", "HSET h i new", "DEL h"];
+const POST: &[&str] = &["SET k new", "APPEND k z", "HSET h f new", "INCR n", "DEL k", "HSET h i new", "DEL h",
+    // every other command of the replicated set
+    "GETSET k g", "DECR n", "INCRBY n 2", "DECRBY n 2", "HDEL h f", "HINCRBY h c 1", "SET k e EX 100", "SET k m KEEPTTL"];
 
 #[derive(Clone, Copy, Debug, PartialEq, Eq)]
 struct Sources {
@@ -438,7 +440,7 @@ fn main() {
     let coverage = json!({
         "evaluations": n.load(Ordering::Relaxed),
         "distinct_nontrivial": checked,
-        "rule": "every sequence of <=3 events (thorough adds length 4 over 6 core events) over {8 local writes on a string key, a hash key (single- and three-field HSET, HDEL) and a counter; 7 remote deltas from replicas 2/3 with stamps small / equal to the local one / far ahead, incl. a remote delete and a remote hash} on a real ReplicatedShardedState, with a crash after the last event and recovery from each of the 7 non-empty subsets of {segments, checkpoint, WAL} (plus the no-crash variant), followed by each of 7 further writes; plus every sequence of exactly 4 local events over 6 core events (incl. a three-field HSET, which advances the stamp by 3) with the emitted deltas grouped into segments so that the last two events (or all events) share a segment; a case is non-trivial when the post-restart write produced a delta for a key the node had observed, so that all three oracles (stamp strictly greater; a peer holding the observed value serves the new one after merging; a second recovery serves the new one) were evaluated",
+        "rule": "every sequence of <=3 events (thorough adds length 4 over 6 core events) over {8 local writes on a string key, a hash key (single- and three-field HSET, HDEL) and a counter; 7 remote deltas from replicas 2/3 with stamps small / equal to the local one / far ahead, incl. a remote delete and a remote hash} on a real ReplicatedShardedState, with a crash after the last event and recovery from each of the 7 non-empty subsets of {segments, checkpoint, WAL} (plus the no-crash variant), followed by each of 15 further writes (one per command of the replicated set: SET plain / EX / KEEPTTL, GETSET, APPEND, INCR, DECR, INCRBY, DECRBY, DEL, HSET, HDEL, HINCRBY); plus every sequence of exactly 4 local events over 6 core events (incl. a three-field HSET, which advances the stamp by 3) with the emitted deltas grouped into segments so that the last two events (or all events) share a segment; a case is non-trivial when the post-restart write produced a delta for a key the node had observed, so that all three oracles (stamp strictly greater; a peer holding the observed value serves the new one after merging; a second recovery serves the new one) were evaluated",
         "event_sequences": seqs.len(),
         "recovery_source_sets": sources.len(),
         "cases": cases.len(),
